@@ -23,6 +23,7 @@ import (
 	"github.com/trustbloc/sidetree-core-go/pkg/processor"
 	restdoc "github.com/trustbloc/sidetree-core-go/pkg/restapi/dochandler"
 	"github.com/trustbloc/sidetree-core-go/pkg/versions/1_0/txnprocessor"
+	"github.com/trustbloc/sidetree-core-go/pkg/versions/1_0/txnprovider"
 
 	"verifharness/hx"
 	"verifharness/ref"
@@ -42,6 +43,7 @@ type pipeLedger struct {
 	direct  bool          // concurrent mode: push to the observer immediately
 	refsOf  map[string][]*operation.Reference
 	failing func() bool // fault injection: true = this WriteAnchor call fails (called without the ledger lock)
+	altSources []string // stamped on every transaction (nodes that hold the batch files)
 	junk    func(next txn.SidetreeTxn) *txn.SidetreeTxn // fault injection: an unprocessable transaction delivered just before `next`
 }
 
@@ -53,7 +55,7 @@ func (l *pipeLedger) WriteAnchor(anchor string, _ []*protocol.AnchorDocument, re
 	l.now += l.step()
 	l.n++
 	t := txn.SidetreeTxn{TransactionTime: l.now, TransactionNumber: l.n % 7, AnchorString: anchor, Namespace: hx.Namespace, ProtocolVersion: ver,
-		CanonicalReference: fmt.Sprintf("txn%d", l.n), EquivalentReferences: []string{fmt.Sprintf("eq%d", l.n)}}
+		CanonicalReference: fmt.Sprintf("txn%d", l.n), EquivalentReferences: []string{fmt.Sprintf("eq%d", l.n)}, AlternateSources: l.altSources}
 	l.all = append(l.all, t)
 	l.refsOf[t.CanonicalReference] = refs
 	direct := l.direct
@@ -171,12 +173,26 @@ type pipeline struct {
 	cas      *hx.MemCAS
 	aliases  []string
 	label    string
+	rawTimes bool // direct submissions name the protocol version by the current ledger time instead of its genesis time
 }
 
 // pipeFix pins the otherwise PRNG-chosen batch sizes and ledger clock steps (scripted scenarios).
 type pipeFix struct {
 	max0, max1 uint
 	step       func() uint64
+	altSource  bool // the observing node holds no batch file itself: everything is read from the alternate source the transactions name
+}
+
+// remoteOnlyCAS: writes go to the writer node's CAS; plain reads find nothing (another node's local CAS), reads of
+// "remote|<uri>" are served by the writer node.
+type remoteOnlyCAS struct{ remote *hx.MemCAS }
+
+func (c *remoteOnlyCAS) Write(content []byte) (string, error) { return c.remote.Write(content) }
+func (c *remoteOnlyCAS) Read(addr string) ([]byte, error) {
+	if strings.HasPrefix(addr, "remote|") {
+		return c.remote.Read(addr[len("remote|"):])
+	}
+	return nil, fmt.Errorf("not found in the local CAS")
 }
 
 func newPipeline(r *hx.Rng, twoVers, useUnpub, concurrent bool, fix ...*pipeFix) (*pipeline, error) {
@@ -189,9 +205,10 @@ func newPipeline(r *hx.Rng, twoVers, useUnpub, concurrent bool, fix ...*pipeFix)
 	pl.p1.Patches = without(hx.AllPatches, "ietf-json-patch")
 	pl.p1.MaxOperationTimeDelta = 100
 	pl.p1.MaxOperationCount = uint(1 + r.Intn(3))
-	if len(fix) > 0 && fix[0] != nil {
+	if len(fix) > 0 && fix[0] != nil && fix[0].max0 > 0 {
 		pl.p0.MaxOperationCount, pl.p1.MaxOperationCount = fix[0].max0, fix[0].max1
 	}
+	altSource := len(fix) > 0 && fix[0] != nil && fix[0].altSource
 	pl.cas = hx.NewMemCAS()
 	pl.store = hx.NewOpStore()
 	pl.unpub = &recUnpub{}
@@ -209,10 +226,17 @@ func newPipeline(r *hx.Rng, twoVers, useUnpub, concurrent bool, fix ...*pipeFix)
 	if useUnpub {
 		tpo = append(tpo, txnprocessor.WithUnpublishedOperationStore(pl.unpub, allOpTypes))
 	}
-	v0 := hx.NewVersion(pl.p0, hx.VersionOpts{CAS: pl.cas, Store: pl.store, TxnProcOpts: tpo})
+	var vcas hx.CAS = pl.cas
+	var provOpts []txnprovider.Opt
+	if altSource {
+		vcas = &remoteOnlyCAS{remote: pl.cas}
+		provOpts = []txnprovider.Opt{txnprovider.WithSourceCASURIFormatter(func(uri, source string) (string, error) { return source + "|" + uri, nil })}
+		pl.ledger.altSources = []string{"unreachable-node", "remote"}
+	}
+	v0 := hx.NewVersion(pl.p0, hx.VersionOpts{CAS: vcas, Store: pl.store, TxnProcOpts: tpo, ProviderOpts: provOpts})
 	vs := []protocol.Version{v0}
 	if twoVers {
-		vs = append(vs, hx.NewVersion(pl.p1, hx.VersionOpts{CAS: pl.cas, Store: pl.store, TxnProcOpts: tpo}))
+		vs = append(vs, hx.NewVersion(pl.p1, hx.VersionOpts{CAS: vcas, Store: pl.store, TxnProcOpts: tpo, ProviderOpts: provOpts}))
 	}
 	pl.pc = &timeClient{vs: vs, now: pl.ledger.Now}
 	var popts []processor.Option
@@ -255,7 +279,13 @@ func (pl *pipeline) submit(req []byte, viaREST bool) (*document.ResolutionResult
 		if err != nil {
 			return nil, err
 		}
-		return pl.dh.ProcessOperation(req, cur.Protocol().GenesisTime)
+		vt := cur.Protocol().GenesisTime
+		if pl.rawTimes {
+			// the caller names the version by a time inside its validity period (the current ledger time) instead of by its
+			// genesis time: the same version is meant
+			vt = pl.ledger.Now()
+		}
+		return pl.dh.ProcessOperation(req, vt)
 	}
 	rw := httptest.NewRecorder()
 	pl.upd.Update(rw, httptest.NewRequest(http.MethodPost, "/operations", bytes.NewReader(req)))
@@ -310,6 +340,9 @@ func checkC20(c *hx.Ctx) {
 	c.Floor("version_boundary_scenarios", 8)
 	c.Floor("version_boundary_scenarios_with_old_version_operation_behind_new_one", 4)
 	c.Floor("runs:two-versions", 10)
+	c.Floor("runs:observer_reads_from_alternate_source", 5)
+	c.Floor("updates_whose_last_patch_fails", 5)
+	c.Floor("runs:version_named_by_ledger_time", 10)
 	c.Floor("runs:unpublished-store", 10)
 	c.Floor("runs:concurrent", 3)
 	c.Floor("resolutions_compared", 300)
@@ -330,12 +363,21 @@ func checkC20(c *hx.Ctx) {
 
 func runPipeline(c *hx.Ctx, r *hx.Rng, ri int, twoVers, useUnpub, concurrent bool) {
 	c.Eval()
-	pl, err := newPipeline(r.Split("pl"), twoVers, useUnpub, concurrent)
+	var fix *pipeFix
+	if ri%5 == 2 {
+		fix = &pipeFix{altSource: true}
+		c.Count("runs:observer_reads_from_alternate_source")
+	}
+	pl, err := newPipeline(r.Split("pl"), twoVers, useUnpub, concurrent, fix)
 	if err != nil {
 		c.Inconclusive("pipeline: %v", err)
 		return
 	}
 	defer pl.obs.Stop()
+	pl.rawTimes = ri%4 >= 2
+	if pl.rawTimes {
+		c.Count("runs:version_named_by_ledger_time")
+	}
 	tag := fmt.Sprintf("run %d two-versions=%v unpublished-store=%v concurrent=%v", ri, twoVers, useUnpub, concurrent)
 	var trace []string
 	var tmu sync.Mutex
@@ -437,7 +479,14 @@ func runPipeline(c *hx.Ctx, r *hx.Rng, ri int, twoVers, useUnpub, concurrent boo
 			}
 			switch x := rr.Intn(10); {
 			case x < 6:
-				b, err = pd.d.Update(patchesFor(rr, ids, enabled), from, until)
+				ups := patchesFor(rr, ids, enabled)
+				if containsS(enabled, "ietf-json-patch") && rr.Chance(1, 6) {
+					// the last patch cannot be applied: the update consumes its commitment and leaves the document as it was,
+					// including what its earlier patches would have done
+					ups = append(ups, patchJSON(map[string]interface{}{"op": "remove", "path": "/memberThatDoesNotExist"}))
+					c.Count("updates_whose_last_patch_fails")
+				}
+				b, err = pd.d.Update(ups, from, until)
 				kind = "update"
 			case x < 9:
 				b, err = pd.d.Recover(append(patchesFor(rr, ids, enabled), patchAddKeys(genKeyEntry(rr, "recKey"))), nil, genOrigin(rr), from, until)
@@ -905,7 +954,11 @@ func versionBoundaryScenarios(c *hx.Ctx) {
 		submit := func(name string, req []byte) bool {
 			cur, _ := pl.pc.Current()
 			ver := cur.Protocol().GenesisTime
-			_, err := pl.dh.ProcessOperation(req, ver)
+			vt := ver
+			if variant&1 == 1 {
+				vt = pl.ledger.Now()
+			}
+			_, err := pl.dh.ProcessOperation(req, vt)
 			note("submit %s under v%d -> %v", name, ver, err)
 			if err != nil {
 				bad("scripted operation " + name + " was refused: " + err.Error())
